@@ -18,6 +18,8 @@ def prog_for(pre, chunks):
     for k in chunks:
         prog.append(("append", a + 1, a + k))
         a += k
+    if not chunks:
+        prog.append(("calculate", ""))   # everything given at construction: calculate once
     return prog
 
 
@@ -133,6 +135,60 @@ def fam_chain(rng, pid, count, targets=("SMA", "EMA", "RMA", "WMA", "HMA")):
     return out
 
 
+def fam_manager(rng, pid, count, fills=(False,), has=(False,), lifes=(None,), hexshare=0.25, tzs=(None,),
+                units=("S", "T", "H", "D"), collapse_ops=True, twins=(), kinds=("HLA", "SMA", "EMA", "OBV"),
+                tag="a"):
+    """candle-manager behaviour seen through a standalone indicator or a Hexital: irregular
+    second-resolution streams, every unit, construction vs chunks, repeated collapse passes"""
+    from streams import tf_seconds
+
+    out = []
+    for t in range(count):
+        unit = units[t % len(units)]
+        n_ = rng.choice([1, 1, 2, 3, 5, 7, 10, 15, 30, 45]) if unit in "ST" else rng.choice([1, 1, 2, 3, 4, 6])
+        tf = f"{unit}{n_}" if rng.random() < 0.92 else None
+        fill = rng.choice(fills) and bool(tf)
+        ha = rng.choice(has)
+        life = rng.choice(lifes)
+        secs = tf_seconds(tf) or 60
+        lifespan = timedelta(seconds=int(secs * life)) if life is not None else None
+        kind = kinds[t % len(kinds)]
+        n = rng.randint(10, 22)
+        regular = None
+        r = rng.random()
+        if tf and r < 0.35:
+            regular = max(1, secs // rng.choice([2, 3, 4, 5]))
+        elif tf and r < 0.45:
+            regular = secs          # exactly one candle per bucket, on the boundary or off it
+        ctype = "HA" if ha else None
+        tz = rng.choice(tzs)
+        if rng.random() < hexshare:
+            cfg = rand_cfg(rng, kind, tf=tf if rng.random() < 0.6 else None)
+            hexcfg = {"timeframe": None if cfg.timeframe else tf, "fill": fill, "lifespan": lifespan, "ctype": ctype}
+            sc = hex_scenario(rng, f"{pid}/hexmgr{tag}/{tf}/{t}", "manager", [cfg], n, rng.choice(["mixed", "walk"]),
+                              twins=twins, hexcfg=hexcfg, tf=tf, regular=regular, pre_choices=(0, 1, 2, n))
+        else:
+            cfg = rand_cfg(rng, kind, tf=tf, fill=fill)
+            cfg.lifespan, cfg.ctype = lifespan, ctype
+            sc = ind_scenario(rng, f"{pid}/mgr{tag}/{tf}/{t}", "manager", cfg, n, rng.choice(["mixed", "walk"]),
+                              twins=twins, tf=tf, regular=regular, pre_choices=(0, 1, 2, n))
+        if collapse_ops and tf and rng.random() < 0.5:
+            prog = []
+            for st in sc["prog"]:
+                prog.append(st)
+                if rng.random() < 0.4:
+                    prog.append(("collapse",))
+            sc["prog"] = prog
+        if tz:
+            sc["tz"] = tz
+        out.append(sc)
+    return out
+
+
+TZS = ["UTC", "Asia/Kolkata", "Asia/Kathmandu", "America/New_York", "Europe/London",
+       "Australia/Lord_Howe", "Pacific/Chatham", "America/St_Johns"]
+
+
 def scenarios(pid, tier, rng):
     q = tier == "quick"
     k = (lambda a, b: a if q else b)
@@ -153,4 +209,18 @@ def scenarios(pid, tier, rng):
                 + fam_chain(rng, pid, k(40, 200)))
     if pid == "C02":
         return fam_kinds(rng, pid, ALL_KINDS, k(260, 1500), twins=("longer",), tf_share=0.5)
+    if pid == "C03":
+        return fam_manager(rng, pid, k(300, 2000))
+    if pid == "C12":
+        return fam_manager(rng, pid, k(300, 2000), fills=(True,), twins=("batch",))
+    if pid == "C11":
+        return (fam_manager(rng, pid, k(260, 1600), has=(True,), twins=("batch",))
+                + fam_manager(rng, pid, k(60, 300), has=(True,), twins=("batch",), kinds=("EMA", "RSI", "ATR", "KC"),
+                              tag="b"))
+    if pid == "C15":
+        return (fam_manager(rng, pid, k(160, 1000), lifes=(1, 2, 3, 5, 8), fills=(False, True))
+                + fam_manager(rng, pid, k(160, 1000), lifes=(6, 8, 12, 20), twins=("untrimmed",),
+                              kinds=("SMA", "EMA", "RSI", "STOCH", "ATR", "MACD", "BBANDS", "OBV"), tag="b"))
+    if pid == "C18":
+        return fam_manager(rng, pid, k(320, 2000), tzs=TZS[1:], fills=(False, True), hexshare=0.15)
     raise KeyError(pid)
